@@ -343,7 +343,14 @@ namespace hgraph
         // the wiring is stable (and idempotent on a pause/resume re-entry).
         single_nested_graph_bind_inputs(nested, evaluation_time);
         single_nested_graph_bind_output(nested, evaluation_time);
-        return nested.child_graph().evaluate(evaluation_time);
+        const bool completed = nested.child_graph().evaluate(evaluation_time);
+        // The child's evaluation can itself re-point a reference-shaped output
+        // (an if_then_else / switch_ inside the child publishing a new
+        // reference). Resolve the forwarding again so this cycle's consumers
+        // read the target selected in this cycle, not the previous one; the
+        // helper is a no-op when the resolved target is unchanged.
+        if (completed) { single_nested_graph_bind_output(nested, evaluation_time); }
+        return completed;
     }
 
     void single_nested_graph_bind_inputs(const SingleNestedGraphNodeView &nested,
